@@ -1,5 +1,10 @@
 // ---------------------------------------------------------------------------
-// shim/callsites.rs -- TRUSTED.  (draft)
+// shim/callsites.rs -- TRUSTED.  What the extracted call-site code (utils/symbol_utils.rs, utils/log.rs, checkers/cwe_676 /
+// cwe_782 / cwe_426 / cwe_332, property C16) may assume about std (`HashMap<&K, V>` / `HashSet<&K>` lookups with a `&K`,
+// `&str == String`, `String::from(&str)`, `ToString`, `format!` of a Tid), serde_json (`from_value`) and the parts of
+// cwe_checker that are out of reach (opaque field types of Project / AnalysisResults, `CweModule` without its fn pointer).
+// Every item is an assumption and is listed in contracts/callsites.vc.  std's HashMap / HashSet / BTreeMap themselves are
+// NOT shimmed: vstd's specifications are used.
 // ---------------------------------------------------------------------------
 // std's maps, imported through a GLOB of a module holding exactly these names: a glob import may coexist with the explicit
 // `use std::collections::{BTreeMap, HashMap}` of shim/callgraph_build.rs (same module when this unit is imported), and `pub`
